@@ -97,6 +97,9 @@ func (w *World) key1(v ssa.Value) string {
 				return w.key(site.Common().Args[i])
 			}
 		}
+		if a := w.uniformArgOf(x); a != nil {
+			return w.key(a)
+		}
 		return "param:" + fname(x.Parent()) + ":" + x.Name()
 	case *ssa.FreeVar:
 		if b := w.binding(x); b != nil {
